@@ -1,0 +1,17 @@
+//go:build verif
+// +build verif
+
+package anndb
+
+import (
+	"github.com/marekgalovic/anndb/cluster"
+	"github.com/marekgalovic/anndb/storage"
+	"github.com/marekgalovic/anndb/storage/raft"
+)
+
+// Read-only accessors to a running server's parts, for the verification harness (build tag verif).
+
+func (this *Server) VerifZeroGroup() *raft.RaftGroup              { return this.zeroGroup }
+func (this *Server) VerifDatasetManager() *storage.DatasetManager { return this.datasetManager }
+func (this *Server) VerifConn() *cluster.Conn                     { return this.clusterConn }
+func (this *Server) VerifNodesManager() *raft.NodesManager        { return this.nodesManager }
